@@ -15,7 +15,8 @@
  *                                     increasing length, NSUBJ-1 = never registered)
  *            S<level>                 aws_logger_set_log_level   (PRE / POST only)
  *            P                        schedule point
- *   (LOGGER takes an optional third word, iso | rfc: the date format of the standard formatter)
+ *   (LOGGER takes an optional third word, iso | rfc: the date format of the standard formatter, and an optional fourth,
+ *    wf<n>: the recording writer reports failure for every n-th line it receives)
  *   FMT <total> <level> <len> <shape> [<subject name length>]    direct aws_format_standard_log_line into a buffer of <total> bytes
  *   NOALLOC <filter> <level> <len> <shape>  one call through aws_logger_init_noalloc writing to a memory stream
  * The log message is   <shape-dependent preamble>@<k>.<seq>@<payload: len x 'x'>$   so that the writer side can
@@ -53,6 +54,8 @@ static char std_path[4200];
 static FILE *std_stream;
 
 /* ---- line analysis (projection): which call, complete?, shape of the line */
+/* the date format the caller configured for the logger / formatter call whose line is being described */
+static const char *cur_dfmt = "iso";
 static void describe_line(const uint8_t *p, size_t n) {
     size_t nl = 0, nul = 0;
     for (size_t i = 0; i < n; ++i) {
@@ -122,6 +125,26 @@ static void describe_line(const uint8_t *p, size_t n) {
             }
         }
     }
+    /* the timestamp: what stands in the second pair of brackets */
+    {
+        int open = 0;
+        size_t a = 0, b = 0;
+        for (size_t i = 0; i < n; ++i) {
+            if (p[i] == '[' && ++open == 2) {
+                size_t j = i + 1;
+                while (j < n && p[j] != ']') {
+                    j++;
+                }
+                if (j < n && j - i - 1 <= 48) {
+                    a = i + 1;
+                    b = j;
+                }
+                break;
+            }
+        }
+        vh_bytes("ts", p + a, b - a);
+        vh_str("dfmt", cur_dfmt);
+    }
     vh_int("slen", slen);
     vh_int("len", (long long)n);
     vh_int("nl", (long long)nl);
@@ -135,6 +158,9 @@ static void describe_line(const uint8_t *p, size_t n) {
     vh_int("complete", complete);
 }
 
+/* a sink that is sometimes unable to take a line (full disk, closed pipe): every wfail-th write reports failure - after
+ * the line has been recorded, i.e. it did reach the writer */
+static int wfail, wcount;
 static int writer_write(struct aws_log_writer *w, const struct aws_string *output) {
     (void)w;
     vh_begin("Write");
@@ -143,6 +169,9 @@ static int writer_write(struct aws_log_writer *w, const struct aws_string *outpu
     describe_line(aws_string_bytes(output), output->len);
     vh_end();
     vs_point(); /* a writer takes time: other threads may run while a line is being written */
+    if (wfail && ++wcount % wfail == 0) {
+        return aws_raise_error(AWS_ERROR_FILE_WRITE_FAILURE);
+    }
     return AWS_OP_SUCCESS;
 }
 static void writer_clean_up(struct aws_log_writer *w) {
@@ -237,7 +266,8 @@ static void parse_ops(struct prog *pg, char **save) {
     }
 }
 
-static void run_fmt(int total, int level, int len, int shape, bool noalloc, int filter, int sl) {
+static void run_fmt(int total, int level, int len, int shape, bool noalloc, int filter, int sl, bool fmt_rfc) {
+    cur_dfmt = (fmt_rfc && !noalloc) ? "rfc" : "iso";
     if (!noalloc) {
         char *sname = malloc((size_t)sl + 1);
         memset(sname, 's', (size_t)sl);
@@ -250,7 +280,7 @@ static void run_fmt(int total, int level, int len, int shape, bool noalloc, int 
             .level = (enum aws_log_level)level,
             .subject_name = sname,
             .format = NULL,
-            .date_format = AWS_DATE_FORMAT_ISO_8601,
+            .date_format = fmt_rfc ? AWS_DATE_FORMAT_RFC822 : AWS_DATE_FORMAT_ISO_8601,
             .allocator = vh_alloc(),
             .amount_written = 0,
         };
@@ -353,6 +383,9 @@ static void scenario(char **lines, int nlines) {
             filter = atoi(strtok_r(NULL, " ", &save));
             const char *df = strtok_r(NULL, " ", &save);
             rfc = df && strcmp(df, "rfc") == 0;
+            const char *wf = strtok_r(NULL, " ", &save); /* optional: wf<n> = every n-th write fails */
+            wfail = (wf && wf[0] == 'w' && wf[1] == 'f') ? atoi(wf + 2) : 0;
+            wcount = 0;
             have_logger = true;
         } else if (strcmp(tok, "PRE") == 0) {
             parse_ops(&pre, &save);
@@ -366,7 +399,8 @@ static void scenario(char **lines, int nlines) {
             int total = atoi(strtok_r(NULL, " ", &save)), level = atoi(strtok_r(NULL, " ", &save));
             int len = atoi(strtok_r(NULL, " ", &save)), shape = atoi(strtok_r(NULL, " ", &save));
             const char *sl = strtok_r(NULL, " ", &save);
-            run_fmt(total, level, len, shape, false, 0, sl ? atoi(sl) : 13);
+            const char *df = strtok_r(NULL, " ", &save);
+            run_fmt(total, level, len, shape, false, 0, sl ? atoi(sl) : 13, df && strcmp(df, "rfc") == 0);
         } else if (strcmp(tok, "LEVELSTR") == 0) {
             const char *txt = strtok_r(NULL, " ", &save);
             const char *upper = strtok_r(NULL, " ", &save); /* the driver's own upper-casing of <text>, passed through */
@@ -396,13 +430,14 @@ static void scenario(char **lines, int nlines) {
             int f = atoi(strtok_r(NULL, " ", &save)), level = atoi(strtok_r(NULL, " ", &save));
             int len = atoi(strtok_r(NULL, " ", &save)), shape = atoi(strtok_r(NULL, " ", &save));
             const char *sl = strtok_r(NULL, " ", &save);
-            run_fmt(0, level, len, shape, true, f, sl ? atoi(sl) : 12);
+            run_fmt(0, level, len, shape, true, f, sl ? atoi(sl) : 12, false);
         }
         free(dup);
     }
     if (!have_logger) {
         return;
     }
+    cur_dfmt = (rfc && !na && !std && !stdf) ? "rfc" : "iso"; /* only the pipeline logger built here takes a date format */
     char *na_mem = NULL;
     size_t na_size = 0;
     FILE *na_stream = NULL;
